@@ -493,7 +493,7 @@ func runC12(o *opts) error {
 			return err
 		}
 		var kjobs []*c12kJob
-		var njobs []*c12nJob
+		var njobs, mjobs []*c12nJob
 		for _, line := range strings.Split(strings.TrimSpace(string(data)), "\n") {
 			f := strings.Fields(line)
 			if len(f) < 6 {
@@ -506,7 +506,9 @@ func runC12(o *opts) error {
 				continue
 			}
 			if f[0] == "N" {
-				if j := c12nFromLine(f); j != nil {
+				if j := c12nFromLine(f); j != nil && j.store == "twins" {
+					mjobs = append(mjobs, j)
+				} else if j != nil {
 					njobs = append(njobs, j)
 				}
 				continue
@@ -529,6 +531,13 @@ func runC12(o *opts) error {
 			return err
 		}
 		for _, j := range njobs {
+			cases.line("%s", j.caseLine)
+			impl.line("%s", j.implLine)
+		}
+		if err := c12mRun(o, mjobs, stats, false); err != nil {
+			return err
+		}
+		for _, j := range mjobs {
 			cases.line("%s", j.caseLine)
 			impl.line("%s", j.implLine)
 		}
@@ -703,6 +712,17 @@ func runC12(o *opts) error {
 			return err
 		}
 		for _, j := range njobs {
+			cases.line("%s", j.caseLine)
+			impl.line("%s", j.implLine)
+		}
+	}
+	// stream m: clauses of one operator family on several symbols of one type, shared literals (c12w5.go)
+	if o.get("nom", "") == "" {
+		mjobs := c12mGenerate(o, newRng(o.seed^0x6d35), stats)
+		if err := c12mRun(o, mjobs, stats, true); err != nil {
+			return err
+		}
+		for _, j := range mjobs {
 			cases.line("%s", j.caseLine)
 			impl.line("%s", j.implLine)
 		}
